@@ -1,7 +1,6 @@
 package mod
 
 import (
-	"context"
 	"errors"
 	"fmt"
 	"time"
@@ -93,12 +92,14 @@ func (c *ConnModule) Update(value sqlite.Value, values ...sqlite.Value) error {
 
 	deadline, writeTime := values[0], values[1]
 
+	// parse everything before assigning anything: a rejected statement must
+	// leave both attributes as they were
+	newDeadline, newWriteTime := c.sc.deadline, c.sc.writeTime
 	if !deadline.NoChange() {
 		if deadline.IsNil() || deadline.Text() == "" {
-			c.sc.deadline = time.Time{}
-			c.sc.ctx = context.Background()
+			newDeadline = time.Time{}
 		} else {
-			c.sc.deadline, err = time.Parse(s3db.SQLiteTimeFormat, deadline.Text())
+			newDeadline, err = time.Parse(s3db.SQLiteTimeFormat, deadline.Text())
 			if err != nil {
 				// TODO: fix other time parsing error messages
 				return fmt.Errorf("deadline: must be like %s", s3db.SQLiteTimeFormat)
@@ -108,14 +109,15 @@ func (c *ConnModule) Update(value sqlite.Value, values ...sqlite.Value) error {
 
 	if !writeTime.NoChange() {
 		if writeTime.IsNil() || writeTime.Text() == "" {
-			c.sc.writeTime = time.Time{}
+			newWriteTime = time.Time{}
 		} else {
-			c.sc.writeTime, err = time.Parse(s3db.SQLiteTimeFormat, writeTime.Text())
+			newWriteTime, err = time.Parse(s3db.SQLiteTimeFormat, writeTime.Text())
 			if err != nil {
 				return fmt.Errorf("write_time: must be like %s", s3db.SQLiteTimeFormat)
 			}
 		}
 	}
+	c.sc.deadline, c.sc.writeTime = newDeadline, newWriteTime
 
 	c.sc.txFixedWriteTime = false
 	c.sc.ResetContext()
